@@ -600,6 +600,11 @@ func (db *DB) Create(o Object, s Schema) (err error) {
 	defer db.Unlock()
 	var es *Schema
 
+	// s is a copy of the caller's Schema but still points to the caller's
+	// asynchronous writes settings: the same Schema value may be used to create
+	// several collections, each must have settings (and a routine) of its own
+	s.AsyncWrites = s.AsyncWrites.clone()
+
 	es, err = db.schema(o)
 
 	switch {
